@@ -22,6 +22,7 @@ type PropDef struct {
 	Validate      int
 	Race          bool
 	SolverTimeout map[string]int
+	Solver        string // preferred solver binary for this property (default z3)
 
 	NativeStepCheck  func(w *Witness, r *nativeResult) bool
 	NativeAllocCheck func(w *Witness, r *nativeResult) bool
@@ -566,6 +567,79 @@ func init() {
 		},
 		Bounds: func(tier string) map[string]interface{} { return map[string]interface{}{} },
 		Covers: []string{"init built"}, RequireCovers: true,
+	}
+	cryptoInstances := func(tier string) []*HarnessCfg {
+		var r []*HarnessCfg
+		p := mod + "/mp4"
+		video := []string{"1", "15", "16", "107", "108", "109", "123;124", "200,5", "130;16,3"}
+		audio := []string{"0", "1", "15", "16", "17", "40", "32;33"}
+		if tier == "thorough" {
+			video = append(video, "112", "113", "128", "255,20;300", "16;16;16")
+			audio = append(audio, "2", "31", "48", "5;5;5")
+		}
+		for i, sz := range video {
+			for _, ivl := range []string{"8", "16"} {
+				if tier != "thorough" && (i%2 == 0) != (ivl == "8") {
+					continue
+				}
+				r = append(r, inst(p, "VerifC06", "avc", "cenc", ivl, sz, "false"))
+			}
+		}
+		r = append(r, inst(p, "VerifC06", "avc", "cenc", "16", "120,4", "true"))
+		for i, sz := range audio {
+			for _, sch := range []string{"cenc", "cbcs"} {
+				ivl := "16"
+				if i%2 == 1 {
+					ivl = "8"
+				}
+				r = append(r, inst(p, "VerifC06", "aac", sch, ivl, sz, "false"))
+			}
+		}
+		for _, c := range r {
+			c.MaxWallS = tierW(tier, 120, 900)
+			c.PanicIsViol = true
+		}
+		return r
+	}
+	for _, id := range []string{"C06", "C07"} {
+		id := id
+		propDefs[id] = &PropDef{
+			ID:       id,
+			Patterns: []string{"./mp4"},
+			InitPkgs: []string{mod + "/mp4", mod + "/aac", mod + "/avc", mod + "/hevc"},
+			Instances: func(tier string, L *Loaded) []*HarnessCfg {
+				r := cryptoInstances(tier)
+				if id == "C07" {
+					// sub-sample maps for every NAL unit size around the thresholds, AVC and HEVC
+					var sizes []int
+					for n := 1; n <= 40; n++ {
+						sizes = append(sizes, n)
+					}
+					for n := 100; n <= 150; n++ {
+						sizes = append(sizes, n)
+					}
+					sizes = append(sizes, 255, 256, 257, 1000)
+					for _, codec := range []string{"avc", "hevc"} {
+						for _, n := range sizes {
+							r = append(r, inst(mod+"/mp4", "VerifC07Ranges", codec, itoa(n), "0"))
+						}
+						for _, pr := range [][2]int{{5, 120}, {120, 5}, {130, 140}, {65600, 130}, {130, 65600}} {
+							if tier != "thorough" && pr[0]+pr[1] > 60000 && codec == "hevc" {
+								continue
+							}
+							c := inst(mod+"/mp4", "VerifC07Ranges", codec, itoa(pr[0]), itoa(pr[1]))
+							c.StepBudget = 30_000_000
+							r = append(r, c)
+						}
+					}
+				}
+				return r
+			},
+			Bounds: func(tier string) map[string]interface{} { return map[string]interface{}{} },
+			Covers: []string{"crypto done"}, RequireCovers: true,
+			Solver:      "cvc5", // UF + 128-bit arithmetic: cvc5 decides what z3 4.8.12 times out on
+			Assumptions: []string{"AES is an uninterpreted permutation E/D with D(k,E(k,x))=x (crypto/aes itself is trusted); CTR and CBC are modelled on top of it per SP 800-38A"},
+		}
 	}
 	propDefs["C13"] = &PropDef{
 		ID:       "C13",
